@@ -305,3 +305,18 @@ PLAN["C08"] = {
     "runs": runs([dict(MON16, budget=200, scale=2.0)],
                  [dict(MON16, budget=1200), {"flavour": "asan", "shards": 16, "scale": 0.15, "budget": 600}, {"flavour": "miri", "shards": 16, "budget": 900, "timeout": 3000}]),
 }
+
+PLAN["C05"] = {
+    "rule": "for each base problem (well-posed planted / strongly primal / strongly dual infeasible, all cone kinds) 10 (quick) / 16 (thorough) equivalent variants composed at random from: "
+            "column permutation, cone reordering, row permutation inside zero/nonnegative cones, SOC tail permutation, NN split and merge, P full vs triu, positive objective scaling, presolve and "
+            "equilibration toggles, qdldl/auto/faer, max_threads 1/2/8; every solution is mapped back to the original variables and re-evaluated in double-double on the ORIGINAL data: verdict "
+            "classes coincide, for every ordered pair of solved runs d_j - p_i <= |r_d^j.x_i| + |r_p^i.z_j| + max(0,-s_i.z_j) + rounding (exact weak-duality identity) and |p_i-p_j| <= gap_i + "
+            "the same slack; identical calls (same solver solved three times, a fresh solver) are compared bit for bit; 16 threads solve a mix of identical and different problems after a "
+            "barrier with randomised delays between construction, solve and read-out while another thread flips the module-level infinity bound between two values far above every |b|: each "
+            "concurrent result must equal the sequential reference bit for bit (distinct interleavings of (construct,solve,read) events are counted)",
+    "assumptions": SOLVE_ASSUME + ["'all schedules' is limited to the interleavings the stress harness (and TSan in the thorough tier) happened to produce"],
+    "min_nontrivial": 100,
+    "runs": runs([dict(MON16, budget=200, scale=2.0)],
+                 [dict(MON16, budget=1200), {"flavour": "rel", "shards": 16, "scale": 0.3, "budget": 600},
+                  {"flavour": "tsan", "shards": 4, "scale": 0.2, "budget": 900, "timeout": 3000}]),
+}
